@@ -277,8 +277,8 @@ func (m *MemoryBackend) Subscribe(client *Client, subs []packet.Subscription, ac
 	sess := client.Session().(*memorySession)
 
 	// save subscription
-	for _, sub := range subs {
-		sess.subscriptions.Set(sub.Topic, &sub)
+	for i := range subs {
+		sess.subscriptions.Set(subs[i].Topic, &subs[i])
 	}
 
 	// call ack if provided
